@@ -209,5 +209,7 @@ MarkPlacements(v) ==
   {WithMk(v, m) : m \in MarkSets}
   \cup MarkNested(v, <<"m2">>)
   \cup {WithMk(w, <<"m1">>) : w \in MarkNested(v, <<"m2">>)}
+  \* two nested members carrying different marks under an unmarked top level
+  \cup TakeN(UNION {MarkNested(w, <<"m1">>) : w \in MarkNested(v, <<"m2">>)}, 8)
 
 =============================================================================
